@@ -311,12 +311,58 @@ pub fn cli_game(r: &mut Rng, min_infosets: usize, max_nodes: usize) -> (MNode, &
     // every payoff is THE double nearest to a multiple of 1/1000 (what a parser makes of the
     // short decimal the writers emit), also after the shifts of dominated actions
     let g = g.map_payoffs(&mut |x| ((x * 1000.0).round()) / 1000.0);
+    // a lottery: one outcome of an unnamed chance node has probability ~1e-17 and everything
+    // behind it pays ~1e17 times more, so that it still contributes order one to every utility
+    let g = if r.coin(0.06) { lottery(&g, r).unwrap_or(g) } else { g };
     // a third of the games carry multi-byte names (order of the names is preserved)
     if r.coin(0.3) {
         (unicode_names(&g), shape)
     } else {
         (g, shape)
     }
+}
+
+/// see `cli_game`; all numbers stay exactly representable (weights 1 and 1e17, payoffs
+/// (thousandths) x 1e14)
+pub fn lottery(g: &MNode, r: &mut Rng) -> Option<MNode> {
+    fn count(n: &MNode) -> usize {
+        match n {
+            MNode::T(_) => 0,
+            MNode::C { info, outs } => (info.is_none() && outs.len() > 1) as usize + outs.iter().map(|(_, _, c)| count(c)).sum::<usize>(),
+            MNode::P { acts, .. } => acts.iter().map(|(_, c)| count(c)).sum(),
+        }
+    }
+    fn go(n: &MNode, which: &mut isize) -> MNode {
+        match n {
+            MNode::T(x) => MNode::T(*x),
+            MNode::C { info, outs } => {
+                let mut hit = false;
+                if info.is_none() && outs.len() > 1 {
+                    *which -= 1;
+                    hit = *which == -1;
+                }
+                if hit {
+                    MNode::C {
+                        info: None,
+                        outs: outs
+                            .iter()
+                            .enumerate()
+                            .map(|(k, (a, _, c))| if k == 0 { (a.clone(), 1.0, c.map_payoffs(&mut |x| (x * 1000.0).round() * 1e14)) } else { (a.clone(), 1e17, c.clone()) })
+                            .collect(),
+                    }
+                } else {
+                    MNode::C { info: info.clone(), outs: outs.iter().map(|(a, w, c)| (a.clone(), *w, go(c, which))).collect() }
+                }
+            }
+            MNode::P { player, info, acts } => MNode::P { player: *player, info: info.clone(), acts: acts.iter().map(|(a, c)| (a.clone(), go(c, which))).collect() },
+        }
+    }
+    let n = count(g);
+    if n == 0 {
+        return None;
+    }
+    let mut which = r.below(n as u64) as isize;
+    Some(go(g, &mut which))
 }
 
 fn unicode_names(n: &MNode) -> MNode {
